@@ -108,7 +108,14 @@ __CPROVER_assigns(verif_exc, self->last_byte_unset_bits, self->data.size, __CPRO
  * (C02) are what establish it for sub-readers. */
 #define BR_OK(r) (__CPROVER_is_fresh(r, sizeof(BitReader)) && (r)->length <= RD_MAX && __CPROVER_is_fresh((r)->data, ((r)->length + 7) >> 3) && verif_exc == 0 && \
                   (r)->length == g_len && (r)->offset == g_off)
-#define BR_REQ(r) __CPROVER_requires(__CPROVER_is_fresh(r, sizeof(BitReader))) __CPROVER_requires((r)->length <= RD_MAX) \
+/* bit readers: the length is in BITS; the small-input bound of the counterexample / bounded re-check runs must leave room for a
+ * full 64-bit field at an unaligned offset */
+#ifdef VERIF_SMALL
+#define BR_MAX 160
+#else
+#define BR_MAX RD_MAX
+#endif
+#define BR_REQ(r) __CPROVER_requires(__CPROVER_is_fresh(r, sizeof(BitReader))) __CPROVER_requires((r)->length <= BR_MAX) \
                   __CPROVER_requires(__CPROVER_is_fresh((r)->data, ((r)->length + 7) >> 3)) \
                   __CPROVER_requires(verif_exc == 0 && (r)->length == g_len && (r)->offset == g_off)
 uint64_t BitReader_pread(BitReader* self, size_t start_offset, uint8_t size)
